@@ -24,6 +24,7 @@ type Found struct {
 type Result struct {
 	Executions  int
 	Pruned      int
+	Cut         int // executions stopped early at an already expanded state
 	States      int
 	Steps       int
 	MaxPoints   int
@@ -63,7 +64,15 @@ func (e *Explorer) init() {
 // that fit the bound and are not pruned).
 func (e *Explorer) RunItem(it Item) []Item {
 	e.init()
-	x := Run(it.Prefix, e.Cfg, e.Body)
+	cfg := e.Cfg
+	if !e.NoPrune {
+		remaining := e.Bound - it.Cost
+		cfg.PruneAt = func(fp uint64) bool {
+			best, ok := e.visited[fp]
+			return ok && best >= remaining
+		}
+	}
+	x := Run(it.Prefix, cfg, e.Body)
 	e.Res.Executions++
 	e.Res.Steps += x.Steps
 	if len(x.Points) > e.Res.MaxPoints {
@@ -79,10 +88,15 @@ func (e *Explorer) RunItem(it Item) []Item {
 		e.Res.EngineErr = x.Fail.Msg
 		return nil
 	}
-	out, sig, detail := e.Check(x)
-	e.Res.Outcomes[out]++
-	if sig != "" {
-		e.Res.Failures = append(e.Res.Failures, Found{Choices: x.Choices(), Outcome: out, Sig: sig, Detail: detail, Cost: it.Cost})
+	if x.Fail != nil && x.Fail.Kind == "pruned" {
+		// the execution reached a state that was already expanded with at least this budget
+		e.Res.Cut++
+	} else {
+		out, sig, detail := e.Check(x)
+		e.Res.Outcomes[out]++
+		if sig != "" {
+			e.Res.Failures = append(e.Res.Failures, Found{Choices: x.Choices(), Outcome: out, Sig: sig, Detail: detail, Cost: it.Cost})
+		}
 	}
 	var kids []Item
 	cost := it.Cost
